@@ -11,6 +11,7 @@ import Mitx.Driver.Safety
 import Mitx.Driver.Restrict
 import Mitx.Driver.Comparers
 import Mitx.Driver.MathArray
+import Mitx.Driver.Sampling
 open Lean
 
 def dispatch (op : String) (j : Json) : Except String Json :=
@@ -32,6 +33,11 @@ def dispatch (op : String) (j : Json) : Except String Json :=
   | "brackets" => Drv.brackets j
   | "restrict" => Drv.restrict j
   | "marr" => Drv.marr j
+  | "samp_real" => Drv.sampReal j
+  | "samp_int" => Drv.sampInt j
+  | "samp_sym" => Drv.sampSym j
+  | "samp_accepts" => Drv.sampAccepts j
+  | "samp_rf" => Drv.sampRF j
   | "mprod" => Drv.mprod j
   | "cmp_between" => Drv.cmpBetween j
   | "cmp_congruence" => Drv.cmpCongruence j
